@@ -2836,17 +2836,47 @@ def _provider_findings(prog: Program, fl: Flow, d_nodes: set[int] | None = None)
             continue
         ktxt, vtxt, mtxt = u(key), u(val), m.id
 
-        def in_use(e: ast.AST, _nid: int) -> bool | None:
-            """`<the stored name> in <names in use>`"""
-            if isinstance(e, ast.Compare) and len(e.ops) == 1 and isinstance(e.ops[0], (ast.In, ast.NotIn)) and u(e.left) == vtxt:
-                c = u(e.comparators[0]).replace(" ", "")
-                pool = c in (f"{mtxt}.values()", f"set({mtxt}.values())", f"list({mtxt}.values())") or (
-                    isinstance(e.comparators[0], ast.Name) and e.comparators[0].id != mtxt and any(
-                        isinstance(x, ast.Call) and isinstance(x.func, ast.Attribute) and x.func.attr in ("add", "append") and u(x.func.value) == c
-                        and len(x.args) == 1 and u(x.args[0]) == vtxt for x in ast.walk(fl.fn.node)))
-                if pool:
+        def is_pool(flow: Any, c: ast.AST, nid: int, name_txt: str, fuel: int = 4) -> bool:
+            """`c` denotes the names in use: the live `M.values()` view (or a set / list / tuple made of it), directly, through a
+            local or through a helper's parameter bound to it; or a collection the function itself adds every stored name to."""
+            t = u(c).replace(" ", "")
+            if t in (f"{mtxt}.values()", f"set({mtxt}.values())", f"list({mtxt}.values())", f"tuple({mtxt}.values())", f"frozenset({mtxt}.values())"):
+                return True
+            if isinstance(c, ast.Name) and c.id != mtxt:
+                if any(isinstance(x, ast.Call) and isinstance(x.func, ast.Attribute) and x.func.attr in ("add", "append") and u(x.func.value) == c.id
+                       and len(x.args) == 1 and u(x.args[0]) == name_txt for x in ast.walk(flow.fn.node)):
+                    return True
+                o = flow.origin(c, nid, through_helpers=False) if fuel > 0 else []
+                return bool(o) and all(q.kind == "expr" and q.node is not None and q.nid is not None and q.node is not c
+                                       and is_pool(q.flow, q.node, q.nid, name_txt, fuel - 1) for q in o)
+            return False
+
+        def in_use_of(flow: Any, name_txt: str) -> Any:
+            def in_use(e: ast.AST, nid: int) -> bool | None:
+                """`<the stored name> in <names in use>`"""
+                if isinstance(e, ast.Compare) and len(e.ops) == 1 and isinstance(e.ops[0], (ast.In, ast.NotIn)) and u(e.left) == name_txt \
+                        and is_pool(flow, e.comparators[0], nid, name_txt):
                     return isinstance(e.ops[0], ast.In)
-            return None
+                return None
+            return in_use
+
+        in_use = in_use_of(fl, vtxt)
+
+        def fresh_from_helper() -> bool:
+            """The stored name is what a private helper returns, and the helper was handed the names in use: every return of
+            the helper is unreachable while "the returned name is in <that parameter>" holds."""
+            call = unawait_call(val)
+            ch = fl.child(call, sn) if call is not None else None
+            if ch is None:
+                return False
+            rets = ch.returns()
+            for r in rets:
+                rv = ch.cfg.nodes[r].ast.value  # type: ignore[union-attr]
+                if not isinstance(rv, ast.Name):
+                    return False
+                if ch.cfg.path(ch.cfg.entry, [r], edge_ok=pruned(ch.cfg, lifted(ch, in_use_of(ch, rv.id)))) is not None:
+                    return False
+            return bool(rets)
 
         def has_name(e: ast.AST, _nid: int) -> bool | None:
             """`<this engine's key> in <the map>`"""
@@ -2855,7 +2885,7 @@ def _provider_findings(prog: Program, fl: Flow, d_nodes: set[int] | None = None)
                 return isinstance(e.ops[0], ast.In)
             return None
 
-        if cfg.path(cfg.entry, [sn], edge_ok=pruned(cfg, lifted(fl, in_use))) is not None:
+        if cfg.path(cfg.entry, [sn], edge_ok=pruned(cfg, lifted(fl, in_use))) is not None and not fresh_from_helper():
             findings.append((f"`{u(m)}[{ktxt}] = {vtxt}` can be reached with `{vtxt}` already handed to another engine: no test of the name "
                              f"against the names in use (`{vtxt} in {mtxt}.values()`) stands between the choice of the name and the store", val))
         if not keeps_first and cfg.path(cfg.entry, [sn], edge_ok=pruned(cfg, lifted(fl, has_name))) is not None:
